@@ -649,3 +649,7 @@ _PRECANCEL = (" pre-cancel: dry-runs (client and server; the library then uses i
 for _p in ("C13", "C12"):
     PROPS[_p]["domains"].append("pre-cancel")
     PROPS[_p]["rule"] += _PRECANCEL
+
+PROPS["C04"]["domains"].append("apisvc")
+PROPS["C04"]["rule"] += (" apisvc: the APIService retry path, also with the client-side retry failing after the stream error: an apply all of whose requests failed is reported "
+                         "Failed (never Successful — the record a dependent's gate reads).")
